@@ -59,6 +59,10 @@ def hygiene():
 def digest(trace):
     h = hashlib.sha256()
     for r in trace:
+        if "d" in r:
+            # absolute call-stack depth depends on who called the harness (pool worker, replay, ...):
+            # it is compared within a run (C03) but is not part of the run's identity
+            r = {k: v for k, v in r.items() if k != "d"}
         h.update(json.dumps(r, sort_keys=True, default=str).encode())
     return h.hexdigest()[:16]
 
